@@ -332,8 +332,8 @@ func writeEvidence(c *Ctx, o Oracle, g gateResult, violations int) {
 		"goroutine_schedule_decisions":  c.Pool.Sched.Load(),
 		"map_order_decisions":           c.Pool.MapDec.Load(),
 		"real_vs_stub": map[string]string{
-			"real":      "all ruby-ti Go code (every package, rebuilt from the working tree), Go scheduler for ti's two goroutines, kernel tmpfs as the disk",
-			"simulated": "wall clock and the 500 ms watchdog timer (tick-driven virtual clock), Go map iteration order, process exit, goroutine panics, file content/fault state, editor and LSP clients",
+			"real":      "all ruby-ti Go code (every package, rebuilt from the working tree), kernel tmpfs as the disk, the file system calls themselves",
+			"simulated": "wall clock and the 500 ms watchdog timer (tick-driven virtual clock with a discrete-event jump when every goroutine is blocked), which goroutine runs next (baton scheduler: creation, channel operations, select, WaitGroup/Mutex/Once, seeded preemption quanta), the order in which select polls its cases, Go map iteration order, the process-wide math/rand generators, wall-clock start and speed, process exit, goroutine panics, file content/fault state, editor and LSP clients",
 			"stub":      "the `ruby` child process of ti-rbs2json (stand-in printing the scenario's AST JSON)",
 		},
 		"exhaustive": false,
